@@ -179,44 +179,47 @@ def reader_rows(repo: Path):
     return rows
 
 
-# ----------------------------------------------------------------------------- object classes (ast only, no import)
+# ----------------------------------------------------------------------------- object classes (reflection in a subprocess)
+_REFLECT = r"""
+import inspect, json, sys
+import geoh5py.objects as O
+from geoh5py.objects import ObjectBase
+out = []
+seen = set()
+for name, cls in inspect.getmembers(O, inspect.isclass):
+    if not issubclass(cls, ObjectBase) or cls is ObjectBase or name in seen:
+        continue
+    seen.add(name)
+    try:
+        uid = cls.default_type_uid()
+    except Exception:
+        uid = None
+    if uid is None:
+        continue
+    first = any("name" in inspect.signature(c.__dict__["__init__"]).parameters
+                for c in cls.__mro__ if "__init__" in c.__dict__ and c is not ObjectBase and issubclass(c, ObjectBase))
+    out.append(["{" + str(uid) + "}", name, bool(first)])
+json.dump(sorted(out), sys.stdout)
+"""
+
+
 def object_classes(repo: Path):
-    """(type uid, class name, name-first) for every class under geoh5py/objects with a __TYPE_UID / default_type_uid constant.
-    name-first: some __init__ in the class's chain (within geoh5py/objects) has an explicit `name` parameter, so a missing Name
-    attribute is replaced *before* on_file=True reaches the name setter."""
-    classes = {}
-    for p in sorted((repo / "geoh5py/objects").rglob("*.py")):
-        tree = ast.parse(p.read_text())
-        for n in tree.body:
-            if not isinstance(n, ast.ClassDef):
-                continue
-            uid, has_name = None, False
-            for m in n.body:
-                if isinstance(m, ast.Assign) and isinstance(m.value, ast.Call) and ast.unparse(m.value.func).endswith("UUID") \
-                        and any("TYPE_UID" in ast.unparse(t) for t in m.targets) and m.value.args:
-                    a = m.value.args[0]
-                    if isinstance(a, ast.Constant):
-                        uid = str(a.value).strip("{}").lower()
-                if isinstance(m, ast.FunctionDef) and m.name == "__init__":
-                    has_name = any(a.arg == "name" for a in m.args.args + m.args.kwonlyargs)
-            bases = [ast.unparse(b).split(".")[-1] for b in n.bases]
-            classes[n.name] = {"uid": uid, "has_name": has_name, "bases": bases, "has_init": any(
-                isinstance(m, ast.FunctionDef) and m.name == "__init__" for m in n.body)}
+    """(type uid, class name, name-first) for every object class create_object_or_group can pick (members of geoh5py.objects with a
+    default_type_uid).  name-first: some __init__ on the way up to ObjectBase takes `name` explicitly, so a missing Name attribute is
+    replaced *before* on_file=True reaches the name setter; otherwise ObjectBase appends name=<class name> after on_file=True and
+    the setter writes to the file."""
+    import json
+    import os
+    import subprocess
 
-    def name_first(c, seen=()):
-        if c not in classes or c in seen:
-            return False
-        if classes[c]["has_name"]:
-            return True
-        # python passes kwargs up the MRO; the first base's chain decides for single inheritance, any base for mixins
-        return any(name_first(b, seen + (c,)) for b in classes[c]["bases"])
-
-    out = []
-    for c, d in sorted(classes.items()):
-        if d["uid"]:
-            out.append(("{" + d["uid"] + "}", c, name_first(c)))
-    if len(out) < 10:
-        raise RuntimeError("object class table: fewer than 10 classes with a type uid were found")
+    env = dict(os.environ)
+    env["PYTHONPATH"] = str(repo)
+    p = subprocess.run(["/venv/bin/python", "-W", "ignore", "-c", _REFLECT], env=env, capture_output=True, text=True, timeout=120)
+    if p.returncode != 0:
+        raise RuntimeError("object class reflection failed: " + p.stderr[-400:])
+    out = [tuple(x) for x in json.loads(p.stdout)]
+    if len(out) < 20:
+        raise RuntimeError("object class table: fewer than 20 classes with a type uid were found")
     return out
 
 
